@@ -1,7 +1,7 @@
 -------------------------- MODULE MC_MessageParse --------------------------
 EXTENDS MessageParse
 AllTypes   == Types
-QuickMuts  == {"insf", "dup", "swap", "bad", "del", "letter"}
+QuickMuts  == {"insf", "dup", "swap", "bad", "del", "letter", "own"}
 AllMuts    == {"insf", "dup", "swap", "bad", "del", "letter", "own"}
 AllModes   == {"sparse", "full", "cofull", "cap", "overcap"}
 BaseModes  == {"sparse", "full", "cofull"}
